@@ -43,4 +43,43 @@ def convValidB (img flt : Tensor S) (sr sc : Nat) : Bool :=
     wfB img && wfB flt && (D' == D) && decide (fr ≤ R) && decide (fc ≤ C) && decide (1 ≤ sr) && decide (1 ≤ sc)
   | _, _ => false
 
+/-! ### single elements of a matrix product -/
+
+/-- the dimensions of `matmul`'s result (operands of rank ≥ 2) -/
+def matmulOutDims (a : Tensor S) (ta : Bool) (b : Tensor S) (tb : Bool) : List Nat :=
+  let la := a.dims.take (a.dims.length - 2)
+  let lb := b.dims.take (b.dims.length - 2)
+  let a2 := a.dims.drop (a.dims.length - 2)
+  let b2 := b.dims.drop (b.dims.length - 2)
+  let m := if ta then a2.getD 1 0 else a2.getD 0 0
+  let n := if tb then b2.getD 0 0 else b2.getD 1 0
+  bdims la lb ++ [m, n]
+
+/-- the element of the specification's product at an output index -/
+def matmulElem (a : Tensor S) (ta : Bool) (b : Tensor S) (tb : Bool) (c : Option (Tensor S)) (idx : List Nat) : S :=
+  let la := a.dims.take (a.dims.length - 2)
+  let lb := b.dims.take (b.dims.length - 2)
+  let a2 := a.dims.drop (a.dims.length - 2)
+  let kk := if ta then a2.getD 0 0 else a2.getD 1 0
+  let lead := bdims la lb
+  let L := idx.take lead.length
+  let r := idx.getD lead.length 0
+  let j := idx.getD (lead.length + 1) 0
+  let cterm : S := match c with
+    | some c => c.get (proj c.dims idx)
+    | none => zero
+  cterm + sumRange kk (fun t =>
+    a.get (proj la L ++ (if ta then [t, r] else [r, t])) * b.get (proj lb L ++ (if tb then [j, t] else [t, j])))
+
+/-- the configurations the single-element command is defined on: well-formed operands of rank ≥ 2 with
+    compatible leading and agreeing inner dimensions; no additive term, or a bias row -/
+def matmulValidB (a : Tensor S) (ta : Bool) (b : Tensor S) (tb : Bool) (c : Option (Tensor S)) : Bool :=
+  match split2 a.dims, split2 b.dims with
+  | some (la, a1, a2), some (lb, b1, b2) =>
+    wfB a && wfB b && Compat la lb && ((if ta then a1 else a2) == (if tb then b2 else b1)) &&
+    (match c with
+     | none => true
+     | some c => (c.dims == [if tb then b1 else b2]) && wfB c)
+  | _, _ => false
+
 end Corgi
